@@ -66,6 +66,10 @@ CLAIMED = {
             'Both mailbox queues are inserted only at the back and searched begin()->end(); the match predicate extracted from the source is evaluated on all 32 assignments of its five atoms against type==wanted && (!mine||mine(..)) && (!theirs||theirs(..)) and its argument order is checked; the three consuming call sites pass remove_matching=true and the two probing ones false, and a found element is erased iff that flag; every path of isend/irecv either matches or pushes exactly once and hands that comm to the observer; copy_data copies at most once and at most min(src size, dst capacity); finish leaves the mailbox before any answer (all paths, abstractly explored).',
             'The network model timing and user-provided match/copy functions are not decided.',
             'DESIGN.md §3 C08'),
+    'C28': ('guard truth table from CFG path conditions (512 rows), dataflow identity on matched paths, pairing, finite-state abstract exploration of Request::start',
+            'Request::match_common is turned into a boolean function of its nine comparison atoms from the path conditions of its CFG and compared on all 512 rows with the MPI rule (communicator, source or ANY_SOURCE with sender in group, tag or ANY_TAG with non-negative tag); on matching paths the real source/tag are copied from the sender exactly under the wildcards and truncation is flagged iff not a probe and smaller buffer; match_recv erases the message id and increments the received counter together and only when neither side probes; match_send/match_recv pass (sender, receiver) in the right order; in Request::start every look-ahead iprobe runs under the temporary PROBE flag, which is cleared before the real simcall on every path, and one message id is recorded per send.',
+            'End-to-end ordering across the small/large mailboxes and the timing are not decided; MPI constants are taken as the literals the code compares with.',
+            'DESIGN.md §3 C28'),
 }
 
 NOT_APPLICABLE = {
